@@ -72,7 +72,8 @@ isal_sha256_ctx_mgr_submit(ISAL_SHA256_HASH_CTX_MGR *mgr, ISAL_SHA256_HASH_CTX *
         *ctx_out = _sha256_ctx_mgr_submit(mgr, ctx_in, buffer, len, flags);
 
 #ifdef SAFE_PARAM
-        if (*ctx_out != NULL &&
+        /* Only the context submitted by this call can have been rejected by it */
+        if (*ctx_out == ctx_in &&
             (ISAL_SHA256_HASH_CTX *) (*ctx_out)->error != ISAL_HASH_CTX_ERROR_NONE) {
                 ISAL_SHA256_HASH_CTX *cp = (ISAL_SHA256_HASH_CTX *) (*ctx_out);
 
